@@ -609,6 +609,8 @@ class Sym01:
         return str
 
     def __eq__(self, o):
+        if type(o) is Sym01:
+            return mk_bool(seq_eq(self.seq, o.seq))
         if isinstance(o, str):
             if len(o) != self.seq.length():
                 return False
@@ -637,7 +639,42 @@ class Sym01:
             got, _ = self.seq.take_front(stop)
             _, got = got.take_front(start)
             return Sym01(got) if not got.is_concrete() else format(got.value(), f'0{stop - start}b')
+        if isinstance(item, int):
+            if not -n <= item < n:
+                raise IndexError('string index out of range')
+            item %= n
+            got, _ = self.seq.take_front(item + 1)
+            _, b = got.take_back(1)
+            return Sym01(b) if not b.is_concrete() else str(b.value())
         raise Unsupported('indexing symbolic bit text')
+
+    def __iter__(self):
+        return iter([self[i] for i in range(self.seq.length())])
+
+    def __add__(self, o):
+        if isinstance(o, Sym01):
+            return Sym01(self.seq + o.seq)
+        if isinstance(o, str) and all(ch in '01' for ch in o):
+            return Sym01(self.seq + Seq.from_01(o))
+        raise Unsupported('concatenation of symbolic bit text with other text')
+
+    def __radd__(self, o):
+        if isinstance(o, str) and all(ch in '01' for ch in o):
+            return Sym01(Seq.from_01(o) + self.seq)
+        raise Unsupported('concatenation of symbolic bit text with other text')
+
+    def find(self, sub, *a):
+        if sub in ('0', '1') and not a and self.seq.length():
+            # position of the first occurrence: only "is the first character `sub`" is decidable without a fork per position
+            first = self[0]
+            if isinstance(first, str):
+                if first == sub:
+                    return 0
+                raise Unsupported('find() beyond the first character of symbolic bit text')
+            if ctx().branch(to_z3_bool(first == sub)):
+                return 0
+            raise Unsupported('find() beyond the first character of symbolic bit text')
+        raise Unsupported('find on symbolic bit text')
 
     def __vf_len__(self):
         return self.seq.length()
